@@ -770,8 +770,13 @@ class Walker:
                 pv = self._member_start(rhs) if self.base != "stack" else None
                 if pv is None:
                     if self._rooted_at_stack(rhs):
-                        raise
-                    pv = None
+                        # `cur = divident + (i - m)` inside a loop: a helper pointer into a region that was carved
+                        # before, at an offset that only the loop knows.  It opens no new region; what is reached
+                        # through it is counted from the region's start, exactly as the direct accesses
+                        # `divident[i]` with an unknown i are (they are skipped).
+                        pv = self._root_offset(rhs)
+                        if pv is None:
+                            raise
             if pv is not None:
                 self.ptrs[vid] = pv
                 if vid == self.stack_id:
@@ -794,6 +799,12 @@ class Walker:
 
     def _is_objcast(self, e):
         return False
+
+    def _root_offset(self, e):
+        r = ir.root_ref(e)
+        if r is None or r.get("id") not in self.ptrs or r["id"] == self.stack_id:
+            return None          # the stack pointer itself must be advanced by evaluable amounts
+        return self.ptrs[r["id"]]
 
     def _member_start(self, e):
         """`X->arr + <offset that cannot be evaluated>` with arr an array member of the state: the pointer stays inside
